@@ -1,7 +1,8 @@
-(** * C18 - gwb-grid writes the requested mesh (Cartesian boxes, chunks, annulus) and the tag filter keeps the selected cells.
-    The sphere grid (12 mapped blocks merged by a distance tolerance) is not modelled: checked by parsing only. *)
+(** * C18 - gwb-grid writes the requested mesh (Cartesian boxes, chunks, annulus, sphere) and the tag filter keeps the selected cells.
+    The sphere grid (12 mapped blocks merged by a distance tolerance, SphereGrid.v) is modelled for every number interpretation;
+    its node positions are compared bit for bit with the tool's on every run. *)
 From Coq Require Import List Arith Lia PeanoNat Bool ZArith Reals Lra.
-From WB Require Import Grid GridProofs.
+From WB Require Import Num Base Grid GridProofs SphereGrid SphereGridProofs.
 Import ListNotations.
 
 (** 3-D box: node and cell counts *)
@@ -113,6 +114,43 @@ Theorem C18_filter_cells : forall nvert npoints include tags cells,
     map (fun i => i * nvert) (seq 1 (length (filter (keep_cell include tags) cells))).
 Proof. intros. split; [apply filter_keeps_selected | apply filter_offsets]. Qed.
 
+(** ** sphere grid, for every number interpretation (binary64 included) *)
+Section C18_sphere.
+  Context {F : Type} {NF : Num F}.
+
+  (** n_cell_z * 12 * n^2 cells; (n_cell_z + 1) layers of as many nodes as the merge of the twelve block hulls keeps *)
+  Theorem C18_sphere_counts : forall level nz (inner outer : F),
+    length (sphere_cells level nz outer) = nz * (12 * (level * level)) /\
+    length (sphere_nodes level nz inner outer) = (nz + 1) * n_kept (sphere_dups level outer) /\
+    1 <= n_kept (sphere_dups level outer).
+  Proof.
+    intros level nz inner outer. split; [apply sphere_cells_count|]. split; [apply sphere_nodes_count|].
+    apply first_node_kept. intros E. pose proof (all_nodes_length (F:=F) level) as L. rewrite E in L. unfold block_np in L. cbn [length] in L. lia.
+  Qed.
+
+  (** every cell is a shell cell (four nodes) on one layer followed by the same four nodes one layer further out *)
+  Theorem C18_sphere_cell_shape : forall level nz (outer : F) c,
+    In c (sphere_cells level nz outer) ->
+    exists i sc, i < nz /\ In sc (shell_cells level (sphere_dups level outer)) /\ length sc = 4 /\
+                 c = map (fun v => v + i * n_kept (sphere_dups level outer)) sc ++
+                     map (fun v => v + (i + 1) * n_kept (sphere_dups level outer)) sc.
+  Proof. intros level nz outer c. apply sphere_cells_shape. Qed.
+
+  (** every vertex index of every cell is a node of the mesh *)
+  Theorem C18_sphere_cells_reference_nodes : forall level nz (inner outer : F) c v,
+    In c (sphere_cells level nz outer) -> In v c -> v < length (sphere_nodes level nz inner outer).
+  Proof.
+    intros level nz inner outer c v Hc Hv. destruct (C18_sphere_counts level nz inner outer) as [_ [-> K]].
+    exact (sphere_cells_in_range level nz _ c v K Hc Hv).
+  Qed.
+
+  (** the renumbering after the merge is the order-preserving bijection from the kept nodes onto 0 .. n_kept-1 *)
+  Theorem C18_sphere_renumbering : forall (ds : list (option nat)) i j,
+    kept ds i -> kept ds j -> i < j ->
+    nth i (sg_compact ds) 0 < nth j (sg_compact ds) 0 /\ nth j (sg_compact ds) 0 < n_kept ds.
+  Proof. exact renumbering_is_order_preserving. Qed.
+End C18_sphere.
+
 Print Assumptions C18_counts_3d.
 Print Assumptions C18_node_order_3d.
 Print Assumptions C18_cell_corners_3d.
@@ -131,3 +169,7 @@ Print Assumptions C18_cell_corners_annulus.
 Print Assumptions C18_cells_reference_nodes_annulus.
 Print Assumptions C18_annulus_ring_closes.
 Print Assumptions C18_annulus_positions.
+Print Assumptions C18_sphere_counts.
+Print Assumptions C18_sphere_cell_shape.
+Print Assumptions C18_sphere_cells_reference_nodes.
+Print Assumptions C18_sphere_renumbering.
